@@ -10,7 +10,7 @@ from .c01 import tol_time
 
 MANIFEST = dict(
     technique="Lean 4 proof: chirp phase law with the constant regenerated from the source, |H|=1 and H(DM)H(-DM)=1 over C, filter inversion on ZMod N, group-delay derivative identity over R (Mathlib calculus), crop validity/tightness over Q + differential correspondence of chirp_function/chirp_from_signal (every bin against the exact-rational phase reduced mod 1) and coherent_dedispersion (crop, stamps, data vs a complex128 oracle, supplied chirp, DM then -DM)",
-    level_text="proved: phase = K*DM*f*(1/ref-1/f)^2 cycles with K=1/2.41e-4 from the source, unit modulus, exact inverse for -DM, d(phase)/df = -time_delay(f, ref) (sign/exponent/reference pinned), kept samples read only in-range input for every in-band frequency and the crop is the tightest such, negative stop gives an empty result; tied: every chirp sample compared with the rational phase, dedispersed length/start via the C01 ledger model, data against an independent oracle",
+    level_text="proved: the expression assigned to `phase` in _transfer_function, translated symbolically on every run, equals the model's law for all non-zero f, ref, in cycles, applied as exp(-i phase) (C05_source_formula); phase = K*DM*f*(1/ref-1/f)^2 cycles with K=1/2.41e-4 from the source, unit modulus, exact inverse for -DM, d(phase)/df = -time_delay(f, ref) (sign/exponent/reference pinned), kept samples read only in-range input for every in-band frequency and the crop is the tightest such, negative stop gives an empty result; tied: every chirp sample compared with the rational phase, dedispersed length/start via the C01 ledger model, data against an independent oracle",
     level_note="PARTIAL on numerics: float64 phase evaluation, complex64 chirp storage and SciPy FFT are outside the model (validated at 2pi*|phase|*2^-50 + 2^-21 per chirp sample and 1e-5*log2 N on data). Trusted: Lean kernel + Mathlib, translator (constant), hand model PbModel/Disp.lean tied by correspondence; the delay doubles from the public sample_delay are given to the crop model exactly",
 )
 
@@ -22,7 +22,8 @@ class Prop(PropBase):
     lean_targets = ["PbProps.C05"]
     theorems = ["Pb.C05." + t for t in ("C05_constant", "C05_phase_law", "C05_phase_neg", "C05_unit_modulus",
                                         "C05_inverse_pointwise", "C05_inverse", "C05_group_delay", "C05_model_matches_real",
-                                        "C05_crop_valid", "C05_crop_tight", "C05_crop_impl", "C05_infinite_reference")]
+                                        "C05_crop_valid", "C05_crop_tight", "C05_crop_impl", "C05_infinite_reference",
+                                        "C05_source_formula")]
     trusted_base = ["PbModel/Disp.lean + Gen/Disp.lean", "numpy.fft complex128 oracle"]
     assumptions = ["band entirely at positive frequencies"]
     rule = ("DM +-1e-4..1e2 scaled so band-edge delays span 0..>N samples; centre 0.15-1.4 GHz, rate 1 kHz-16 MHz, nchan 1-4 x 3 "
